@@ -110,6 +110,7 @@ func runC05(r *core.Run) {
 	attrSub(r, "attributes/all+attr+autoid", core.MustCfg("all+attr+autoid"), core.Pick(r, 4, 5), func(s *core.Sub, cv *core.Conv, w []byte) { c05Case(s, cv, w) })
 	for _, cn := range []string{"core", "all+attr+autoid"} {
 		nestSub(r, "nesting/"+cn, core.MustCfg(cn), core.Pick(r, 3, 4), func(s *core.Sub, cv *core.Conv, w []byte) { c05Case(s, cv, w) })
+		corpusSub(r, "structured-corpus/"+cn, core.MustCfg(cn), nil, func(s *core.Sub, cv *core.Conv, w []byte) { c05Case(s, cv, w) })
 	}
 }
 
